@@ -131,7 +131,12 @@ fn ends(c: &Call) -> (usize, usize) {
 
 /// build a valid op list from run descriptions: (kind, len_a, len_b); kind 0 = equal
 fn build(runs: &[(u8, usize, usize)]) -> Vec<Call> {
-    let (mut o, mut n) = (0, 0);
+    build_at(runs, 0, 0)
+}
+
+/// the same op list starting at `(o0, n0)` (sub-range diffs: old and new positions differ)
+fn build_at(runs: &[(u8, usize, usize)], o0: usize, n0: usize) -> Vec<Call> {
+    let (mut o, mut n) = (o0, n0);
     let mut v = vec![];
     for &(k, a, b) in runs {
         match k {
@@ -201,6 +206,9 @@ pub fn suite_group(ctx: &mut Ctx) {
                     }
                     let ops = build(&runs);
                     check_group(ctx, &ops, n);
+                    // non-zero, different start positions on the two sides
+                    let (o0, n0) = [(2, 5), (7, 3), (1, 0)][(kc + idx[0]) % 3];
+                    check_group(ctx, &build_at(&runs, o0, n0), n);
                 }
                 // next idx
                 let mut p = 0;
@@ -240,7 +248,7 @@ pub fn suite_group(ctx: &mut Ctx) {
                 runs.push((0u8, l.max(1), 0));
             }
         }
-        let ops = build(&runs);
+        let ops = build_at(&runs, rng.below(4) * rng.below(3), rng.below(5) * rng.below(2));
         check_group(ctx, &ops, n);
     }
 }
